@@ -92,10 +92,10 @@ func SortedEntries(kb *ast.KnowledgeBase) []*ast.RuleEntry {
 // MemoSet is the list of memo cells (Evaluated flag + remembered value) of one instance,
 // collected once (the graph's shape does not change during a run) in deterministic order.
 type MemoSet struct {
-	kb    *ast.KnowledgeBase
-	es    []*ast.RuleEntry
-	evs   []*bool
-	vals  []*reflect.Value
+	kb   *ast.KnowledgeBase
+	es   []*ast.RuleEntry
+	evs  []*bool
+	vals []*reflect.Value
 }
 
 func NewMemoSet(kb *ast.KnowledgeBase) *MemoSet {
